@@ -106,7 +106,7 @@ func (l *Loaded) Engine() (*Engine, error) {
 	if err != nil {
 		return nil, err
 	}
-	return &Engine{Prog: l.Prog, Fset: l.Fset, Contracts: contracts, Specs: specs, Lemmas: lemmas, Models: DefaultModels(), InlineExt: map[string]bool{}, MaxPaths: 4096, MaxInline: 4}, nil
+	return &Engine{Prog: l.Prog, Fset: l.Fset, Contracts: contracts, Specs: specs, Lemmas: lemmas, Models: DefaultModels(), InlineExt: defaultInlineExt(), MaxPaths: 4096, MaxInline: 4}, nil
 }
 
 // CmdGen: debugging entry point: generate and discharge the VCs of functions matching a suffix.
@@ -134,7 +134,7 @@ func CmdGen(pkgs, fnSuffix, dump string, dbg bool, nopanic bool) int {
 		fn := l.Funcs[k]
 		fc := e.Contracts[k]
 		if fc == nil {
-			fc = &FuncContract{Key: k, NoPanic: nopanic, Loops: map[int]*LoopContract{}, Dyn: map[string]string{}}
+			fc = &FuncContract{Key: k, NoPanic: nopanic, ModAll: true, Loops: map[int]*LoopContract{}, Dyn: map[string]string{}}
 		}
 		fr := e.GenVCs(fn, fc)
 		fmt.Printf("== %s (%s): %d obligations, %d paths, %d instrs, gen %.2fs\n", k, fr.Pos, len(fr.Obligations), fr.Paths, fr.Instrs, fr.GenTime.Seconds())
@@ -160,3 +160,19 @@ func CmdGen(pkgs, fnSuffix, dump string, dbg bool, nopanic bool) int {
 	return 0
 }
 
+
+// defaultInlineExt lists library functions whose real bodies are executed symbolically (inlined)
+// instead of being abstracted: small, loop-free, pure-Go code.
+func defaultInlineExt() map[string]bool {
+	m := map[string]bool{}
+	for _, n := range []string{"bytes.NewReader", "(*bytes.Reader).Read", "(*bytes.Reader).ReadByte", "(*bytes.Reader).Len", "(*bytes.Reader).Size",
+		"(encoding/binary.littleEndian).Uint16", "(encoding/binary.littleEndian).Uint32", "(encoding/binary.littleEndian).Uint64",
+		"(encoding/binary.littleEndian).PutUint16", "(encoding/binary.littleEndian).PutUint32", "(encoding/binary.littleEndian).PutUint64",
+		"(encoding/binary.bigEndian).Uint16", "(encoding/binary.bigEndian).Uint32", "(encoding/binary.bigEndian).Uint64",
+		"(encoding/binary.bigEndian).PutUint16", "(encoding/binary.bigEndian).PutUint32", "(encoding/binary.bigEndian).PutUint64",
+		"math/bits.TrailingZeros32", "math/bits.LeadingZeros32", "math/bits.Len32", "math/bits.LeadingZeros64", "math/bits.Len64", "math/bits.TrailingZeros64",
+	} {
+		m[n] = true
+	}
+	return m
+}
